@@ -67,6 +67,9 @@ func (hd *HmacDrbg) Generate(output, additional []byte) error {
 	if hd.NeedReseed() {
 		return ErrReseedRequired
 	}
+	if len(output) > MAX_BYTES_PER_GENERATE {
+		return errors.New("drbg: too many bytes requested")
+	}
 	// Step 2. If additional_input is provided, then do update
 	if len(additional) > 0 {
 		hd.update(additional)
